@@ -130,8 +130,23 @@ def keep(mdir, name, pids):
     return 0
 
 
+def recheck(name, pids):
+    """re-run checks against an already recorded seeded change and update its meta.json"""
+    dst = os.path.join(VERIF, "seeded", name)
+    res = run_checks(dst, pids, False)
+    meta = json.load(open(os.path.join(dst, "meta.json")))
+    for pid, r in res.items():
+        meta.setdefault("checks_run", {})[pid] = dict(caught=(r["exit"] == 1), exit=r["exit"], verdict=r["violation"][:1], detail=r["detail"][:1])
+    meta["caught_by"] = sorted(pid for pid, r in meta["checks_run"].items() if r["exit"] == 1)
+    json.dump(meta, open(os.path.join(dst, "meta.json"), "w"), indent=1)
+    print("rechecked", name, "caught by", meta["caught_by"])
+    return 0
+
+
 if __name__ == "__main__":
     cmd = sys.argv[1]
+    if cmd == "recheck":
+        sys.exit(recheck(sys.argv[2], sys.argv[3:]))
     if cmd == "keep":
         sys.exit(keep(sys.argv[2], sys.argv[3], sys.argv[4:]))
     if cmd == "verify":
